@@ -283,7 +283,9 @@ func runC04(t *testing.T, r *engine.Run) {
 			}
 			s.lastReq = sortedNames(s.names)
 		case "add_name", "readd_name":
-			mustAnswer = true
+			// extension configurations: the name may belong to a plugin that no longer exists (a rejected listener
+			// still refers to it); istio sends nothing for such a name, so only the record is checked
+			mustAnswer = typ != v3.ExtensionConfigurationType
 			n := fmt.Sprintf("outbound|80||added%d.example.com", i)
 			if typ == v3.RouteType {
 				n = fmt.Sprintf("90%d", i)
